@@ -532,7 +532,16 @@ class Ctx:
         s, c = self.fresh('sinc'), self.fresh('cosc')
         fs, fc = Fraction(repr(math.sin(float(a)))), Fraction(repr(math.cos(float(a))))
         eps = Fraction(1, 10**12)
-        self.side += [s * s + c * c == 1, s >= lift(fs - eps), s <= lift(fs + eps), c >= lift(fc - eps), c <= lift(fc + eps)]
+        if getattr(self, 'tight_trig', False) and abs(Fraction(a)) < Fraction(1, 1000):
+          # tiny ground angles: sound Taylor enclosures with RELATIVE precision (the absolute 1e-12 pin is useless for sin(1e-11))
+          x = Fraction(a)
+          ax = abs(x)
+          slo, shi = ax - ax ** 3 / 6, ax
+          if x < 0:
+            slo, shi = -shi, -slo
+          self.side += [s * s + c * c == 1, s >= lift(slo), s <= lift(shi), c >= lift(1 - x * x / 2), c <= lift(1 - x * x / 2 + x ** 4 / 24)]
+        else:
+          self.side += [s * s + c * c == 1, s >= lift(fs - eps), s <= lift(fs + eps), c >= lift(fc - eps), c <= lift(fc + eps)]
         self.trig[key] = (s, c, lift(a))
       return self.trig[key][:2]
     av = self._angle_of(a)
